@@ -89,6 +89,9 @@ pub fn c15_case(rep: &mut Report, seed: u64, idx: u64, verbose: bool) {
     // ---- run: the environment returns the token whenever it gets it ----
     // holding intervals of the station: (start, end) in bus time
     let mut holdings: Vec<(Us, Us)> = Vec::new();
+    // parallel to `holdings`: did the holding end with a token pass (as opposed to a back-off)?
+    let mut passed: Vec<bool> = Vec::new();
+    let mut cut_at: Option<Us> = None;
     let visits = 20 + rng.usize(60);
     let mut hold_start: Us;
     let mut learnt = n_env < 2;
@@ -150,6 +153,7 @@ pub fn c15_case(rep: &mut Report, seed: u64, idx: u64, verbose: bool) {
             // the time-out: give it the token again (2-ring) or wait for its claim
             // (the holding that ended without a token pass still was a holding)
             holdings.push((hold_start, rig.now()));
+            passed.push(false);
             if n_env > 0 {
                 token_at_env = true;
                 // the environment "still has" the token: whoever had it last passes it again
@@ -169,8 +173,24 @@ pub fn c15_case(rep: &mut Report, seed: u64, idx: u64, verbose: bool) {
             }
         };
         match &f.decoded {
+            Some(RTel::Token { sa, da }) if *sa == ts && {
+                let pr = rig.fdl().verif_probe();
+                pr.state == "CheckTokenPass" && pr.sub >= 2
+            } => {
+                // The station repeats a token pass although the environment has taken the token and
+                // moved it on: it did not hear that (a late reply of a hostile peer sat in front of
+                // the environment's telegram and made both undecodable).  From here on station and
+                // environment disagree about who holds the token; what follows is not judged.
+                let _ = da;
+                rep.count("C15_cases_cut_at_unheard_token_take_over");
+                cut_at = Some(f.start);
+                break;
+            }
             Some(RTel::Token { sa, da }) if *sa == ts => {
                 holdings.push((hold_start, f.start));
+                // (a token frame of the station that follows a token it never decoded -- garbage of a
+                //  hostile peer in front of it -- is the retry of its previous pass, not the end of a visit)
+                passed.push(true);
                 v += 1;
                 if *da == ts {
                     hold_start = f.start;
@@ -191,7 +211,14 @@ pub fn c15_case(rep: &mut Report, seed: u64, idx: u64, verbose: bool) {
         }
     }
     // ---- monitors over the tap ----
-    let taps: Vec<(usize, TapEv)> = rig.world.stations[0].apps.drain_tap();
+    let mut taps: Vec<(usize, TapEv)> = rig.world.stations[0].apps.drain_tap();
+    if let Some(c) = cut_at {
+        // (one slot time of margin: the last holding before the cut ended with the first, unheard pass)
+        let c = c - cfg.tslot();
+        taps.retain(|(_, e)| match e {
+            TapEv::Ask { t, .. } | TapEv::Reply { t, .. } | TapEv::Timeout { t, .. } => *t < c,
+        });
+    }
     // frames of the station by start time (to read the function code off the wire)
     let frames_by_start: std::collections::BTreeMap<Us, RTel> = {
         let bus = rig.world.bus.borrow();
@@ -344,6 +371,39 @@ pub fn c15_case(rep: &mut Report, seed: u64, idx: u64, verbose: bool) {
         }
     }
     let _ = asks_in_visit;
+    // P6: "the token is passed once every application has declined once or the hold time is over" --
+    // a visit that ends with a token pass while hold time is left must have asked every application
+    // until it declined.  (The hold time of a visit ends TTR after the previous receipt, less the
+    // reservation of one slot time + 100 bit for a GAP poll; the first visit has no previous receipt.)
+    if viol.is_none() && n >= 1 {
+        for h in 1..holdings.len() {
+            // both this and the previous holding must be real token visits (the previous one gives
+            // the receipt time the hold time is counted from)
+            let real = |k: usize| passed.get(k).copied().unwrap_or(false) && rig.use_token_entries.iter().any(|t| *t >= holdings[k].0 && *t < holdings[k].1);
+            if !real(h) || !real(h - 1) {
+                continue;
+            }
+            let (a, b) = holdings[h];
+            let hold_end = holdings[h - 1].0 + ttr_us - cfg.bits(cfg.slot_bits as u64 + 100) - 2 * cfg.period - cfg.bits(40);
+            if b >= hold_end {
+                rep.count("C15_P6_visits_ended_by_hold_time");
+                continue;
+            }
+            let mut declined = vec![false; n];
+            for (k, ev) in taps.iter() {
+                if let TapEv::Ask { t, sent: None, .. } = ev {
+                    if *t >= a && *t <= b {
+                        declined[*k] = true;
+                    }
+                }
+            }
+            if let Some(k) = declined.iter().position(|d| !*d) {
+                viol = Some(("C15/P6/token-passed-before-every-application-declined".into(), format!("the token visit {}..{}us ended with a token pass although the hold time lasts until {}us and application {} of {} has not declined in it", a, b, hold_end, k, n)));
+                break;
+            }
+            rep.count("C15_P6_visits_ended_after_all_declined");
+        }
+    }
     if let Some((sig, what)) = viol {
         let hist: Vec<String> = rig.history.iter().rev().take(10).rev().cloned().collect();
         rep.violation(sig, format!("{} [{}] last events: {:?}", what, descr, hist));
